@@ -119,7 +119,7 @@ def cells(text, mode: str):
 
 
 MODES = {"utf-8": "utf8", "utf8": "utf8", "euc-jp": "wide", "gbk": "wide", "big5": "wide",
-         "euc-kr": "wide", "iso8859-1": "narrow", "ascii": "narrow", "latin-1": "narrow"}
+         "euc-kr": "wide", "uhc": "wide", "iso8859-1": "narrow", "ascii": "narrow", "latin-1": "narrow"}
 
 
 def mode_of(encoding: str) -> str:
